@@ -942,8 +942,15 @@ func configs(prop, tier string) []*Config {
 	add(Config{Path: "reader", Sources: []string{shapes[8]}, Matcher: "re", Extract: exFull, Batch: 1, Workers: 0, Readers: 1, Buffer: 1})
 	// ignore-case dissect with two literals: whatever the compiled pattern keeps
 	// for folding lines is shared by the instances of all workers
-	add(Config{Path: "reader", Sources: []string{shapes[12]}, Matcher: "dissect-ic", Extract: exFull, Batch: 1, Workers: 2, Readers: 1, Buffer: 1})
-	add(Config{Path: "reader", Sources: []string{shapes[12]}, Matcher: "dissect-ic", Extract: exFull, Batch: 2, Workers: 2, Readers: 1, Buffer: 2})
+	// (two deviations in both tiers: the detector needs no particular schedule)
+	for _, dc := range []Config{
+		{Path: "reader", Sources: []string{shapes[12]}, Matcher: "dissect-ic", Extract: exFull, Batch: 1, Workers: 2, Readers: 1, Buffer: 1},
+		{Path: "reader", Sources: []string{shapes[12]}, Matcher: "dissect-ic", Extract: exFull, Batch: 2, Workers: 2, Readers: 1, Buffer: 2},
+	} {
+		dc.ErrSrc, dc.Bound = -1, 2
+		d := dc
+		out = append(out, &d)
+	}
 	// more batches from one worker than the match channel (capacity 5) holds,
 	// while the consumer keeps every batch it received: a worker that recycles
 	// its match slices overwrites what the consumer still holds
